@@ -657,3 +657,52 @@ func TestC11PaillierSmallPrimeSweep(t *testing.T) {
 	})
 	r.SetExhaustive(true)
 }
+
+// TestC11ChallengeDiversity: the soundness error of the repeated proofs (mod: 2^-80, Paillier key: 13 rounds)
+// rests on the rounds having independent challenges. The challenges a verifier will use can be read off an
+// honest proof (mod: y_i = z_i^N mod N by the verifier's own first equation) or computed with the exported
+// derivation (Paillier key: GenerateXs); they must be pairwise different.
+func TestC11ChallengeDiversity(t *testing.T) {
+	r := ev.New(t, "C11")
+	type div struct {
+		Sys  string
+		Set  int
+		Sess B
+	}
+	var cases []div
+	for set := 0; set < 5; set++ {
+		cases = append(cases, div{"mod", set, bx([]byte{byte(set), 7})}, div{"paillier", set, ""})
+	}
+	ev.Each(t, r, cases, func(c div) ev.Outcome {
+		out := ev.Outcome{Label: fmt.Sprintf("challenge diversity %s set=%d", c.Sys, c.Set), Nontrivial: true}
+		pp := preParams()[c.Set]
+		N := pp.PaillierSK.N
+		var chs []*big.Int
+		switch c.Sys {
+		case "mod":
+			pf, err := modproof.NewProof(c.Sess.Bytes(), N, pp.PaillierSK.P, pp.PaillierSK.Q, rand.Reader)
+			if err != nil || !pf.Verify(c.Sess.Bytes(), N) {
+				out.Label = "uncalibrated " + out.Label
+				out.Nontrivial = false
+				return out
+			}
+			for i := range pf.Z {
+				chs = append(chs, new(big.Int).Exp(pf.Z[i], N, N))
+			}
+		default:
+			pub := crypto.ScalarBaseMult(tss.S256(), big.NewInt(int64(1000+c.Set)))
+			chs = paillier.GenerateXs(paillier.ProofIters, big.NewInt(int64(77+c.Set)), N, pub)
+		}
+		seen := map[string]int{}
+		for i, y := range chs {
+			if j, dup := seen[y.String()]; dup {
+				out.Err = fmt.Errorf("%s proof: rounds %d and %d use the same challenge (%d rounds, %d distinct challenges so far)", c.Sys, j, i, len(chs), len(seen))
+				out.Sig = "challenges-repeat:" + c.Sys
+				return out
+			}
+			seen[y.String()] = i
+		}
+		return out
+	})
+	r.SetExhaustive(true)
+}
